@@ -48,6 +48,12 @@ def _run_case(case):
     d.recycle_if_big()
     try:
         d.cmd('new strict' if case.get('strict') else 'new')
+        if case.get('prior') is not None:
+            # the same session object reads another file first
+            fp = os.path.join(d.dir, 'prior.stp')
+            with open(fp, 'wb') as f:
+                f.write(case['prior'].encode('latin1') if isinstance(case['prior'], str) else case['prior'])
+            d.cmd('read ' + fp)
         a = d.cmd('read ' + fin)
         res.update(drv.kv(a[0]))
         if res['esev'] < 2 or case.get('want_log'):
